@@ -109,6 +109,12 @@ def run(tier, replay=None):
                 # from one option or from two, and the configured URL carries a query string or none
                 scen.append({"id": sid, "client": client, "cfg": cfg, "ops": ops, "split": len(scen) % 2 == 1, "query": len(scen) % 3 != 0})
                 expected[sid] = [(gr.nodes[gr.edges[i][1]]["res"], gr.nodes[gr.edges[i][1]]["wire"]) for i in p]
+    # with retries configured every ATTEMPT is an outbound request of its own (outside the model: judged directly below)
+    for client in ("streamable", "legacy"):
+        for handler in (True, False):
+            sid = "retry-%s-%s" % (client, handler)
+            scen.append({"id": sid, "client": client, "ops": ["initialize", "call", "call"], "split": handler, "query": False, "retry": True,
+                         "cfg": {"hdr": True, "before": "ok", "errAt": "-", "handler": handler, "path": False, "getsse": False, "latesid": False}})
     rnd.shuffle(scen)
     nproc = 12
     chunks = [scen[i::nproc] for i in range(nproc)]
@@ -139,6 +145,24 @@ def run(tier, replay=None):
                     continue
                 if r.get("broken"):
                     raise common.Broken("scenario %s: %s" % (r["id"], r["broken"]))
+                if sc.get("retry"):
+                    # every attempt passes through the configured customisation exactly as a first attempt does
+                    run_.nontriv(["retry", sc["id"]])
+                    total = sum(len(o["reqs"]) for o in r["ops"])
+                    if r.get("before_calls") != total:
+                        run_.diverge("client=%s retry before-function-calls" % sc["client"],
+                                     "with retries configured %d requests reached the server, the before-request function was called %s times (once per request)"
+                                     % (total, r.get("before_calls")), rp)
+                    for o in r["ops"]:
+                        if o["op"] != "call":
+                            continue
+                        reqs = [q for q in o["reqs"] if q["kind"] == "request"]
+                        bad = [q for q in reqs if not (q["nb"] == 1 and q["hdr"] and q["path"] and q["sid"] and q["via"] == sc["cfg"]["handler"] and q["ctx"] == "op")]
+                        if o["res"] != "ok" or len(reqs) < 2 or bad:
+                            run_.diverge("client=%s retry attempt-not-customised" % sc["client"],
+                                         "with retries configured and the first attempt answered 503 the call ended %r with %d attempts on the wire; attempts that did not pass "
+                                         "through the configuration as a first attempt does: %s" % (o["res"], len(reqs), [q.get("raw") for q in bad][:3]), rp)
+                    continue
                 ev = [dict(e="cfg", **sc["cfg"])]
                 for o in r["ops"]:
                     ev.append({"e": "op", "op": o["op"], "res": o["res"], "reqs": [{k: v for k, v in q.items() if k != "raw"} for q in o["reqs"]]})
